@@ -1,12 +1,17 @@
 """
 C02 — the time-reversed solver returns a circuit that generates the target exactly.
 
-Every circuit returned by the real `TimeReversedSolver` is (i) validated by the Lean validator `circ.check`, whose soundness is the
-theorem C02.validator_sound: acceptance means that under EVERY combination of measurement outcomes the verified tableau semantics
-leaves the photons exactly in |G> and every emitter in |0>; (ii) compiled by both real backends under forced-0, forced-1 and random
-outcomes and compared with the target by independent means (signed-group canonicaliser / dense matrices); (iii) `validate()`d, and
-the reported score must be 0.  Targets: all labelled graphs on <= 4 (quick) / <= 5 (thorough) vertices without isolated vertices,
-given as graph, stabilizer and density-matrix QuantumState, plus random graphs (connected and not, random vertex orders).
+Proof (Lean, all targets / sizes / outcome scripts): C02.solve_sound — if the solver MODEL (Model/Solver.lean) returns and its final
+working tableau is |0..0> (hypothesis `hfinal`), the circuit it recorded, run by the verified tableau semantics from all-|0> under EVERY
+outcome script, leaves the photons exactly in |G> and every emitter in |0>.  This harness ties the theorem to the code and discharges
+its hypothesis on every input: (i) the model's circuit is compared EXACTLY (per-wire operation sequences, wrapper lists) with the
+circuit the real `TimeReversedSolver` returns, and the model's `zero` flag (= `hfinal`: the final working tableau generates the group of |0..0>) must be 1; (ii) independently, every circuit
+returned by the real solver is validated by the Lean validator `circ.check` (theorem C02.validator_sound: acceptance means that under
+EVERY combination of measurement outcomes the verified tableau semantics leaves the photons exactly in |G> and every emitter in |0>);
+(iii) it is compiled by both real backends under forced-0, forced-1 and random outcomes and compared with the target by independent
+means (signed-group canonicaliser / dense matrices); (iv) `validate()`d, and the reported score must be 0.  Targets: all labelled
+graphs on <= 4 (quick) / <= 5 (thorough) vertices without isolated vertices, given as graph, stabilizer and density-matrix
+QuantumState, plus random graphs (connected and not, random vertex orders).
 """
 import itertools
 
@@ -16,10 +21,12 @@ from harness import tabutil as tu
 from harness.c01 import make_compilers, tokens_of
 from harness.common import Driver, Result, err_class
 
-LEVEL = "translation_validation"
+LEVEL = "proof"
 TRUSTED_BASE = [
-    "Lean 4.33 kernel; theorem C02.validator_sound (the validator accepts only circuits that generate |G> x |0..0> under every outcome script) on top of the C07/C01 tableau semantics",
-    "the solver itself is NOT modelled: 'for every graph' is explored (exhaustively for small n), not proved",
+    "Lean 4.33 kernel; theorem C02.solve_sound (soundness of the solver model for every target, size and outcome script, under the hypothesis "
+    "hfinal = 'the model's final working tableau generates the group of |0..0>') and C02.validator_sound, both on top of the C07/C01 tableau semantics",
+    "correspondence: the solver model is compared exactly (per-wire operation sequences) with the implementation on every generated target; "
+    "hfinal is evaluated by the driver on every input (flag zero=1); completeness (solve returns, hfinal holds, for EVERY graph) is NOT proved",
     "harness: translation of the implementation's op sequence into the validator's input (tokens_of), numpy dense reference (n_quantum <= 8)",
 ]
 ASSUMPTIONS = ["targets with an isolated vertex are the known finding D3 (solver raises IndexError) and are evaluated only for that finding"]
@@ -166,6 +173,11 @@ def flush(res, drv, pending):
                 res.exact_break("solver.trs:error-class", input=clean, impl="ok", model=rep["_raw"][:200])
                 continue
             mtoks = [] if rep["ops"] == "-" else rep["ops"].split(",")
+            if rep.get("zero") != "1":
+                # hypothesis `hfinal` of C02.solve_sound fails on this input: the proof does not cover it
+                res.exact_break("solver.trs:final-tableau-not-zero", input=clean, impl="ok", model=rep["_raw"][:300])
+            else:
+                res.extra["hfinal_checked"] = res.extra.get("hfinal_checked", 0) + 1
             if int(rep["ne"]) != clean["ne"] or per_wire(mtoks) != per_wire(inp["_toks"]):
                 res.exact_break("solver.trs", input=clean, impl=",".join(inp["_toks"])[:1500], model=rep["_raw"][:1500])
             continue
